@@ -33,6 +33,7 @@ CONSTANTS
     UnitW(_, _),    \* weight (bytes) of part j of a chunk of size class s
     BufCap,         \* capacity of the response buffer in bytes (flush when full)
     LockStep,       \* TRUE: the upstream writes chunk k+1 only after the client has chunk k (when flushing applies)
+    MaxUnits,       \* upper bound of the number of units of one response (quantifier range of Delivered)
     MaxConns,       \* connections the transport may hold to one target, 0 = unlimited (fabio: unlimited)
     \* ---- designs that must be rejected / named deviations of the code from the documentation
     SwapIntervals,  \* TRUE: g is used for SSE exchanges and f for the others
@@ -49,7 +50,7 @@ VARIABLES
     uwire,   \* upstream -> proxy, in flight
     ureq,    \* requests the upstream received
     uconn,   \* "none" | "open" | "byproxy" (the upstream saw the proxy close it) | "byup"
-    pst,     \* proxy handler: "idle" | "wait" | "copy" | "done" | "aborted" | "answered" | "canceled"
+    pst,     \* proxy handler: "idle" | "start" (request accepted, not forwarded yet) | "wait" | "copy" | "done" | "aborted" | "answered" | "canceled"
     phdr,    \* 0 | status held in the response buffer (not flushed)
     pbuf,    \* units in the response buffer
     cwire,   \* proxy -> client, in flight
@@ -304,10 +305,10 @@ CalmDelivered == CalmS /\ Alive => /\ Weight(rcvd) >= OwedBytes
 
 \* (delivery) every unit the upstream has written reaches the client - the upstream need not write more
 Settled == cgone \/ pst \in {"aborted", "answered", "canceled"} \/ ust \in {"cut", "rst", "dead"}
-Delivered == \A i \in 1..9 : [](Len(sent) >= i /\ (Flushing \/ ust = "end") ~> (Len(rcvd) >= i \/ Settled))
+Delivered == \A i \in 1..MaxUnits : [](Len(sent) >= i /\ (Flushing \/ ust = "end") ~> (Len(rcvd) >= i \/ Settled))
 HeaderDelivered == [](uhdr /\ (Flushing \/ ust = "end") ~> (chdr = 200 \/ Settled))
 \* the same for an exchange that does not flush: this one is NOT promised (used to show the check can fail)
-DeliveredAlways == \A i \in 1..9 : [](Len(sent) >= i ~> (Len(rcvd) >= i \/ Settled))
+DeliveredAlways == \A i \in 1..MaxUnits : [](Len(sent) >= i ~> (Len(rcvd) >= i \/ Settled))
 
 \* (failure mapping, liveness) a failure before the header is answered, a failure in the body ends the response
 EarlyAnswered == /\ [](sc.refuse /\ pst = "start" ~> (chdr = 502 \/ cgone))
